@@ -27,6 +27,7 @@ TRUSTED_BASE = [
     "Coq 8.16.1 kernel and its vm_compute machine (no native_compute, no -type-in-type, no guard/positivity/universe switches)",
     "axioms: none declared; Print Assumptions output of every property theorem is recorded below",
     "harness/gen_tables.py (translator of _lettermap, kit structures, cutters, MRO, archive indices into coq/Gen/*.v)",
+    "harness/src2coq.py + gen_src.py (translator of the algorithmic methods of regex.py, record.py, core/_structured.py, modules.py, vectors.py, _assembly.py into coq/Gen/Src.v: its primitive tables, and coq/Py.v, coq/PyObj.v as the model of Python/re/Biopython objects)",
     "harness case writers / observation canonicalisers and coq/Glue.v parsers and comparators",
     "modelled, not verified: CPython re on the flat pattern fragment, Biopython 1.88 Seq/SeqRecord/SeqFeature/Restriction, fs, tarfile, property_cached",
 ]
@@ -56,6 +57,7 @@ class Ctx(object):
         self.notes = []
         self.exhaustive = False
         self.rule = ""
+        self.make_errors = {}
 
     @property
     def quick(self):
@@ -182,6 +184,32 @@ def coq_make(targets=None, timeout=1500):
         return p.returncode == 0, p.stdout.decode(errors="replace")
 
 
+def make_failures(log):
+    """{file.v: first error text} from a `make -k` log; the stale .vo of a file that failed is
+    removed so that what depends on it reports the missing library, not an inconsistency"""
+    out = {}
+    lines = log.split("\n")
+    for i, ln in enumerate(lines):
+        m = re.match(r'File "\./([^"]+\.v)", line (\d+)', ln)
+        if not m:
+            continue
+        txt = []
+        for nx in lines[i + 1:i + 40]:
+            if nx.startswith(("make", "File ", "COQC", "COQDEP")):
+                break
+            txt.append(nx)
+        body = " ".join(" ".join(txt).split())
+        if body.startswith("Error") and m.group(1) not in out:
+            out[m.group(1)] = "line %s: %s" % (m.group(2), body[:900])
+    with build_lock(True):
+        for f in out:
+            base = os.path.join(COQ, f[:-2])
+            for ext in (".vo", ".vok", ".vos", ".glob"):
+                with contextlib.suppress(OSError):
+                    os.remove(base + ext)
+    return out
+
+
 def coqc(path, timeout=600):
     p = subprocess.run(["timeout", str(timeout), "coqc", "-Q", ".", "MV", path], cwd=COQ,
                        stdout=subprocess.PIPE, stderr=subprocess.STDOUT)
@@ -228,7 +256,12 @@ def check_props(ctx, extra_files=()):
         with build_lock(False):
             rc, out = coqc(rel)
         if rc != 0:
-            ctx.broken.append({"file": rel, "theorems": names, "log": out[-3000:]})
+            why = out[-3000:]
+            me = getattr(ctx, "make_errors", None)
+            if me:
+                why += "\nfiles of the development that no longer compile: " + "; ".join(
+                    "%s (%s)" % (f, e) for f, e in me.items())[:3000]
+            ctx.broken.append({"file": rel, "theorems": names, "log": why})
             continue
         # Print Assumptions outputs appear in order
         blocks = re.split(r"(?m)^(?=Closed under the global context|Axioms:)", out)
